@@ -1,0 +1,80 @@
+//go:build verif
+
+package statsd
+
+import (
+	"context"
+
+	"github.com/atlassian/gostatsd"
+	"github.com/atlassian/gostatsd/pkg/stats"
+)
+
+// Step exports of CloudHandler for the C11 correspondence check of /verif: the arms of Run's
+// select loop, callable one at a time without starting Run.  Thin wrappers, no logic of their own
+// (except VerifPopLookup, which repeats the refill at the bottom of Run's loop verbatim because that
+// code is inline in Run).
+
+// VerifIncomingMetrics is the receive side of the channel DispatchMetricMap sends its cache misses to.
+func (ch *CloudHandler) VerifIncomingMetrics() <-chan *gostatsd.MetricMap { return ch.incomingMetrics }
+
+// VerifIncomingEvents is the receive side of the channel DispatchEvent sends a cache miss to.
+func (ch *CloudHandler) VerifIncomingEvents() <-chan *gostatsd.Event { return ch.incomingEvents }
+
+// VerifHandleIncomingMetrics is Run's arm `metrics := <-ch.incomingMetrics`.
+func (ch *CloudHandler) VerifHandleIncomingMetrics(mm *gostatsd.MetricMap) {
+	ch.handleIncomingMetrics(mm)
+}
+
+// VerifHandleIncomingEvent is Run's arm `e := <-ch.incomingEvents`.
+func (ch *CloudHandler) VerifHandleIncomingEvent(e *gostatsd.Event) { ch.handleIncomingEvent(e) }
+
+// VerifHandleInstanceInfo is Run's arm `info := <-infoSource`.
+func (ch *CloudHandler) VerifHandleInstanceInfo(ctx context.Context, info gostatsd.InstanceInfo) {
+	ch.handleInstanceInfo(ctx, info)
+}
+
+// VerifEmit is Run's arm `statser := <-ch.emitChan`.
+func (ch *CloudHandler) VerifEmit(statser stats.Statser) { ch.emit(statser) }
+
+// VerifPopLookup is the refill at the bottom of Run's loop for the case toLookupC == nil: the source
+// that would be offered to IpSink() next, or false when nothing is pending.
+func (ch *CloudHandler) VerifPopLookup() (gostatsd.Source, bool) {
+	if len(ch.toLookupIPs) > 0 {
+		last := len(ch.toLookupIPs) - 1
+		toLookupIP := ch.toLookupIPs[last]
+		ch.toLookupIPs[last] = gostatsd.UnknownSource
+		ch.toLookupIPs = ch.toLookupIPs[:last]
+		return toLookupIP, true
+	}
+	return gostatsd.UnknownSource, false
+}
+
+// VerifCloudState is a snapshot of the fields owned by Run's goroutine.
+type VerifCloudState struct {
+	AwaitingMetrics  map[gostatsd.Source]*gostatsd.MetricMap
+	AwaitingEvents   map[gostatsd.Source][]*gostatsd.Event
+	ToLookup         []gostatsd.Source
+	MetricHostsQueue uint64
+	EventHostsQueue  uint64
+	EventItemsQueue  uint64
+}
+
+// VerifState returns the park maps (shallow copies: the maps and slices are new, the values are
+// shared), the pending lookups and the three queue counters.
+func (ch *CloudHandler) VerifState() VerifCloudState {
+	st := VerifCloudState{
+		AwaitingMetrics:  make(map[gostatsd.Source]*gostatsd.MetricMap, len(ch.awaitingMetrics)),
+		AwaitingEvents:   make(map[gostatsd.Source][]*gostatsd.Event, len(ch.awaitingEvents)),
+		ToLookup:         append([]gostatsd.Source(nil), ch.toLookupIPs...),
+		MetricHostsQueue: ch.statsMetricHostsQueued,
+		EventHostsQueue:  ch.statsEventHostsQueued,
+		EventItemsQueue:  ch.statsEventItemsQueued,
+	}
+	for k, v := range ch.awaitingMetrics {
+		st.AwaitingMetrics[k] = v
+	}
+	for k, v := range ch.awaitingEvents {
+		st.AwaitingEvents[k] = append([]*gostatsd.Event(nil), v...)
+	}
+	return st
+}
